@@ -17,19 +17,24 @@ for d in sorted(os.listdir(root)):
     env=dict(os.environ)
     keep=bool(prev) and prev.get('confirmed',{}).get('existing_suite_with_change')=='ok' and prev['confirmed'].get('demo_with_change')=='fail' and prev['confirmed'].get('demo_without_change')=='pass' and not os.environ.get('SEED_RECONFIRM')
     if keep: env['SEED_SKIP_CONFIRM']='1'
-    r=subprocess.run(['/verif/tools/seedcheck.sh',prop,p],capture_output=True,text=True,env=env)
+    # a change may break another property than the one its author was given (meta.json "check_property")
+    cprop=(prev or {}).get('check_property',prop)
+    r=subprocess.run(['/verif/tools/seedcheck.sh',cprop,p],capture_output=True,text=True,env=env)
     out=r.stdout+r.stderr
     m=re.search(r'SEED \S+ \S+ suite=(\S+) demo_with=(\S+) demo_without=(\S+) check_exit=(\d+)',out)
     viol=[l.strip() for l in out.split('\n') if l.startswith('VIOLATION')]
     harn=[l.strip() for l in out.split('\n') if l.strip().startswith('harness=') or l.strip().startswith('(engine-trace)') or l.strip().startswith('label=')]
     notes=open(p+'/notes.md').read() if os.path.exists(p+'/notes.md') else ''
-    meta={"seed":d,"property":prop,"breaks":prop,
+    meta={"seed":d,"property":prop,"breaks":cprop,
       "needs_to_manifest":notes.strip()[:1500],
       "confirmed":(prev['confirmed'] if keep else {"existing_suite_with_change":m.group(1) if m else '?',"demo_with_change":m.group(2) if m else '?',"demo_without_change":m.group(3) if m else '?'}),
-      "what_i_ran":"tools/seedcheck.sh %s seeded/%s (scratch worktree: go build, go test ./... with the change, demo with/without; then git -C /repo apply, bin/symgo check %s --tier quick, git -C /repo checkout -- .)"%(prop,d,prop),
+      "what_i_ran":"tools/seedconfirm.sh / tools/seedcheck.sh %s seeded/%s (scratch worktree: go build, go test ./... with the change, demo with/without; then git -C /repo apply, bin/symgo check %s --tier quick, git -C /repo checkout -- .)"%(cprop,d,cprop),
       "check_exit":int(m.group(4)) if m else None,
       "caught_by":[re.sub(r'\s+',' ',h)[:240] for h in harn[:4]],
       "violation_lines":viol[:4],"wall_s":round(time.time()-t0,1)}
+    if cprop!=prop:
+        meta['check_property']=cprop
+        meta['note']=(prev or {}).get('note','')
     json.dump(meta,open(p+'/meta.json','w'),indent=1)
     rows.append(meta)
     print(d, meta['confirmed'], 'check_exit=',meta['check_exit'], flush=True)
